@@ -181,12 +181,23 @@ def p_csr(T):
     cols = pt.make_placeholder("cols", (6,), np.int32)
     rs = pt.make_placeholder("rs", (4,), np.int32)
     x = pt.make_placeholder("x", (5, 2), np.float64)
-    mat = pt.make_csr_matrix((3, 5), vals, cols, rs)
+    # (row starts that are themselves computed: the reduction bounds then
+    # read a temporary)
+    mat = pt.make_csr_matrix((3, 5), T(4, vals * 2), cols, T(3, rs + 0))
     y = T(0, mat @ T(1, x + 1))
     return {"o": T(2, y * 2)}
 
 
-PROGRAMS = {"calls": p_calls, "csr": p_csr, "stack_concat": p_stack_concat, "static": p_static,
+def p_tagged_inputs(T):
+    # tags on inputs (where allowed), inputs returned as outputs and used
+    n = pt.make_size_param("n")
+    a = T(0, pt.make_placeholder("a", (n, 4), np.float64))
+    w = T(1, pt.make_data_wrapper(np.arange(4.0)))
+    s = T(2, a + w)
+    return {"a_out": a, "s": s, "t": T(3, s * a)}
+
+
+PROGRAMS = {"calls": p_calls, "csr": p_csr, "tagged_inputs": p_tagged_inputs, "stack_concat": p_stack_concat, "static": p_static,
             "mixed_dtypes": p_mixed_dtypes,
             "outputs_are_inputs": p_outputs_are_inputs,
             "advanced_index": p_advanced_index,
@@ -194,7 +205,7 @@ PROGRAMS = {"calls": p_calls, "csr": p_csr, "stack_concat": p_stack_concat, "sta
             "elementwise": p_elementwise, "reductions": p_reductions,
             "chain": p_chain, "indexing": p_indexing, "einsum": p_einsum,
             "datawrapper": p_datawrapper}
-NPOS = {"calls": 3, "csr": 3, "stack_concat": 4, "static": 5, "mixed_dtypes": 5,
+NPOS = {"calls": 3, "csr": 5, "tagged_inputs": 4, "stack_concat": 4, "static": 5, "mixed_dtypes": 5,
         "outputs_are_inputs": 2, "advanced_index": 4, "nested_reductions": 4,
         "elementwise": 4, "reductions": 4, "chain": 4, "indexing": 5,
         "einsum": 3, "datawrapper": 3}
@@ -345,6 +356,10 @@ class KernelMeaning(Contract):
         twice = sorted(nm for nm, c in decl.items() if c != 1)
         h.oblige("kernel.wellformed.each-iname-declared-by-one-domain",
                  z3.BoolVal(not twice), props=P, info=twice)
+        argnames = [a.name for a in knl.args]
+        h.oblige("kernel.wellformed.argument-names-unique",
+                 z3.BoolVal(len(set(argnames)) == len(argnames)), props=P,
+                 info=argnames)
         # -- outputs: names, shapes, dtypes
         outs = {a.name for a in knl.args if getattr(a, "is_output", False)}
         h.oblige("kernel.outputs.names", z3.BoolVal(outs == set(ref)),
